@@ -191,8 +191,11 @@ func (w *world) idle() {
 }
 
 func (w *world) newNode() interface{} {
+	// objects all the way down: a valid document bounds the depth by its own nesting (≤ ~250 levels, parser
+	// limit), so this cap is only reached when execution follows a fragment cycle that validation let through —
+	// and then the runaway recursion must be allowed to show (stack limit 64 MiB in the workers)
 	w.depth++
-	if w.depth > 400 {
+	if w.depth > 5000000 {
 		return nil
 	}
 	return &node{typ: hx.Pick(w.r, []string{"A", "B", "Obj"}), id: w.r.Intn(5)}
@@ -271,7 +274,7 @@ func buildSchema() (*graphql.Schema, error) {
 				return hx.Pick(w.r, []interface{}{"id1", 12, int64(5)})
 			})},
 			"color": {Type: color, Resolve: res(func(w *world, _ graphql.FieldContext) interface{} {
-				return hx.Pick(w.r, []interface{}{"red", 2, "blue", "purple"})
+				return hx.Pick(w.r, []interface{}{"red", 2, "blue", "purple", []int{1}, map[string]int{"a": 1}, struct{ A []int }{}, 2.0, int64(2)})
 			})},
 			"custom": {Type: custom, Resolve: res(func(w *world, _ graphql.FieldContext) interface{} { return w.junk() })},
 			"dt": {Type: apifu.DateTimeType, Resolve: res(func(w *world, _ graphql.FieldContext) interface{} {
@@ -301,6 +304,21 @@ func buildSchema() (*graphql.Schema, error) {
 			})},
 			"listNN": {Type: nn(list(nn(graphql.IntType))), Resolve: res(func(w *world, _ graphql.FieldContext) interface{} {
 				return hx.Pick(w.r, []interface{}{[]interface{}{1, 2}, []interface{}{1, nil}, []int{}})
+			})},
+			"floats": {Type: list(graphql.FloatType), Resolve: res(func(w *world, _ graphql.FieldContext) interface{} {
+				return hx.Pick(w.r, []interface{}{[]float64{1.5, math.NaN()}, []float64{math.Inf(1)}, []float32{float32(math.Inf(-1)), 2}, []interface{}{1.5, math.NaN(), nil}, []float64{}, [2]float64{1, math.NaN()}, []int{1, 2}})
+			})},
+			"floatsNN": {Type: nn(list(nn(graphql.FloatType))), Resolve: res(func(w *world, _ graphql.FieldContext) interface{} {
+				return hx.Pick(w.r, []interface{}{[]float64{1.5, 2.5}, []float64{math.NaN()}, []float64{1, math.Inf(1)}, []float32{float32(math.NaN())}})
+			})},
+			"strs": {Type: list(graphql.StringType), Resolve: res(func(w *world, _ graphql.FieldContext) interface{} {
+				return hx.Pick(w.r, []interface{}{[]string{"a", "\xff"}, []interface{}{"a", 1, nil}, []bool{true}})
+			})},
+			"bools": {Type: list(nn(graphql.BooleanType)), Resolve: res(func(w *world, _ graphql.FieldContext) interface{} {
+				return hx.Pick(w.r, []interface{}{[]bool{true, false}, []interface{}{true, "x"}, []string{"true"}})
+			})},
+			"colors": {Type: list(color), Resolve: res(func(w *world, _ graphql.FieldContext) interface{} {
+				return hx.Pick(w.r, []interface{}{[]interface{}{"red", 2}, []interface{}{[]int{1}, map[string]int{"a": 1}, struct{ A []int }{}}, []string{"red", "nope"}, []int{2}})
 			})},
 			"ll": {Type: list(list(graphql.StringType)), Resolve: res(func(w *world, _ graphql.FieldContext) interface{} {
 				return []interface{}{[]interface{}{"a", nil}, nil, []string{"b"}}
@@ -365,6 +383,9 @@ var seedQueries = []string{
 	`{ node { id name ... on A { onlyA obj { int } } ... on B { onlyB } __typename } }`,
 	`{ u { __typename ... on A { id onlyA } ... on B { name } ... on Obj { int listNN } ... on Entity { id } } us { ... on A { id } } }`,
 	`{ list listNN ll nodes { id } nodesNN { name ... on A { onlyA } } }`,
+	`{ floats floatsNN strs bools colors color f2: floats f3: floats f4: floatsNN c2: colors c3: colors }`,
+	`{ ...T } fragment T on Query { objNN { ...B } } fragment B on Obj { objNN { ...C } } fragment C on Obj { int objNN { ...B } }`,
+	`{ objNN { ...U1 } } fragment U1 on Obj { ...U2 } fragment U2 on Obj { ...U3 } fragment U3 on Obj { objNN { ...V } } fragment V on Obj { objNN { ...W } } fragment W on Obj { objNN { ...V } str }`,
 	`query($i: Int = 3, $in: In, $b: Boolean = true, $e: Color, $l: [Int], $s: String! , $id: ID, $f: Float) { args(i: $i, in: $in, b: $b, e: $e, l: $l, s: $s, id: $id, f: $f) a2: args(in: {a: 1, b: "x", c: [{b: "y", e: {b: "z"}}], d: GREEN}, ll: [[1, 2], [3]], l: 5, inl: [{b: "q"}], c: "c", dt: "2020-01-01T00:00:00Z", li: 9007199254740991, dn: null) }`,
 	`query($v: Boolean!, $w: Boolean = false) { int @skip(if: $v) str @include(if: $w) bool @skip(if: false) @include(if: true) ...F @skip(if: $w) ... @include(if: $v) { float } } fragment F on Query { id obj { ...G } } fragment G on Obj { int str }`,
 	`query A { int } query B { str } mutation M { int obj { str } intNN }`,
